@@ -67,7 +67,7 @@ func rulesC02(e *Engine, r *Report) {
 	r.Min("R02.1", "FileSource.Remove call sites", len(rm), 2)
 
 	// ---------------------------------------------------------------- R02.2
-	r.Rule("R02.2", "who may mark done: FileCache.Done with a callback is guarded by Waiting()/Received(); with a nil callback it is guarded by Store.IsNotExist(err) == true (file already gone)")
+	r.Rule("R02.2", "who may mark done: FileCache.Done is called only with a verdict - guarded by Waiting()/Received() of the polled file; there is no `done` for a file that is merely not there (the nil-callback form, which the scan's clean-up would take for `confirmed` should the file come back)")
 	ds := e.InvokeSites("sts", "FileCache", "Done")
 	for _, s := range ds {
 		cc := s.Instr.Common()
@@ -75,9 +75,9 @@ func rulesC02(e *Engine, r *Report) {
 			cb := e.Canon(cc.Args[1])
 			construct := e.ShortName(s.Fn) + ": FileCache.Done(" + shorten(e.Canon(cc.Args[0])) + ", " + cb + ")"
 			if cb == "nil" {
-				cls := labeler(C("invoke(sts.FileSource.IsNotExist)(§)", "gone"))
-				e.Guarded(r, "R02.2", construct, s.Fn, only(s.Instr.(ssa.Instruction)), cls,
-					func(l LabelSet) bool { return l.Has("gone") }, "Store.IsNotExist(err) is true")
+				// `done` means confirmed: a file that is merely not there is forgotten (Cache.Remove, R07.3),
+				// not marked done - it may come back unchanged, and the scan's clean-up deletes done files (F55)
+				r.Bad("R02.2", construct, e.InstrPos(s.Instr), "a cache entry is marked done without a verdict (nil callback): if the file (re)appears unchanged it is passed over by the scan and deleted by its clean-up, unsent", 1)
 			} else {
 				key := e.Canon(cc.Args[0])
 				polled := strings.TrimSuffix(strings.TrimPrefix(key, "invoke(sts.Polled.GetName)("), ")")
@@ -90,7 +90,7 @@ func rulesC02(e *Engine, r *Report) {
 			}
 		}
 	}
-	r.Min("R02.2", "FileCache.Done call sites", len(ds), 3)
+	r.Min("R02.2", "FileCache.Done call sites", len(ds), 1)
 
 	// ---------------------------------------------------------------- R02.3
 	r.Rule("R02.3", "the done bit belongs to one version: in every FileCache implementation (outside mock) `true` is stored to the entry's done field only in Done; a store of the version fields (size/mtime/hash) of an existing entry is preceded on every path by a store of false to its done field, or the path carries size and mtime equality with the incoming file")
